@@ -327,6 +327,7 @@ def main():
         model_rows = None
     distinct = set()
     dist = {}
+    size_hist = {}
     def judge(cases, outs, blds, model_rows, count=True):
         for i, line in enumerate(cases):
             op, kv = vlib.parse_case(line)
@@ -334,6 +335,12 @@ def main():
                 dist[op] = dist.get(op, 0) + 1
                 if P["nontrivial"](op, kv):
                     distinct.add(line)
+                for key, field in (("haystack_bytes", "h"), ("needle_bytes", "x")):
+                    if field in kv:
+                        n_ = len(kv[field]) // 2
+                        b_ = next(lbl for (lim, lbl) in ((0, "0"), (15, "1-15"), (63, "16-63"), (255, "64-255"), (4095, "256-4095"), (1 << 62, ">=4096")) if n_ <= lim)
+                        size_hist.setdefault(key, {})
+                        size_hist[key][b_] = size_hist[key].get(b_, 0) + 1
             for (bname, exe, env) in blds:
                 res, tr = outs[bname][i]
                 if res == "MISSING":
@@ -527,7 +534,7 @@ def main():
         print_assumptions_closed=closed, axioms=axioms,
         params_translator_ok=ok,
         evaluations=stats["evaluations"], distinct_nontrivial=len(distinct),
-        rule=P["rule"], samples=samples, op_distribution=dist,
+        rule=P["rule"], samples=samples, op_distribution=dist, size_distribution=size_hist,
         traces_validated_against_impl=stats["compared_traces"],
         results_compared_with_model=stats["compared_results"],
         oracle_checked=stats["oracle_checked"],
